@@ -2152,3 +2152,63 @@ func (r *Report) NoNativeArith(key, fnKey string, ops []string, atoms ...string)
 	}
 	r.OK(k, d, w.FnPos(fn), fmt.Sprintf("%d native operations of that kind examined, none on the listed sources", n))
 }
+
+// BlamePolarity (C04): in ProcessComplaint the member passed to MarkMemberMalicious is Complainant on the
+// VerifyComplaint-failed edge and Respondent on the success edge (a phi of the two field loads).
+func (r *Report) BlamePolarity(key, fnKey string) {
+	w := r.W
+	fn := w.Fn(fnKey)
+	d := "MarkMemberMalicious receives c.Complainant when VerifyComplaint fails and c.Respondent when it succeeds"
+	k := key + "|" + fnKey
+	if fn == nil {
+		r.Unres(k, d, "function not found")
+		return
+	}
+	calls := Calls(fn, "Keeper.MarkMemberMalicious")
+	if len(calls) != 1 {
+		r.Unres(k, d, fmt.Sprintf("%d calls of MarkMemberMalicious", len(calls)))
+		return
+	}
+	v := seeThrough(argValue(calls[0].Common(), 2))
+	phi, ok := v.(*ssa.Phi)
+	if !ok || len(phi.Edges) != 2 {
+		r.Bad(k, d, w.posOr(calls[0].Pos(), fn), "blamed member is not a two-way choice: "+clip(Render(v).String(), 160))
+		return
+	}
+	// find the If on VerifyComplaint's error
+	ifs := w.ifs(fn)
+	c := nilErrOf("Keeper.VerifyComplaint")
+	var ib *ssa.BasicBlock
+	var okOnTrue bool
+	for _, ii := range ifs {
+		if m, p := c.Match(ii.pred); m {
+			ib, okOnTrue = ii.b, p
+		}
+	}
+	if ib == nil {
+		r.Bad(k, d, w.FnPos(fn), "no branch on the result of VerifyComplaint")
+		return
+	}
+	okSucc, failSucc := ib.Succs[0], ib.Succs[1]
+	if !okOnTrue {
+		okSucc, failSucc = failSucc, okSucc
+	}
+	for i, e := range phi.Edges {
+		pred := phi.Block().Preds[i]
+		t := Render(e)
+		fromOK := pred == okSucc || reachFrom(okSucc, map[*ssa.BasicBlock]bool{ib: true})[pred] && !reachFrom(failSucc, map[*ssa.BasicBlock]bool{ib: true})[pred]
+		fromFail := pred == failSucc || reachFrom(failSucc, map[*ssa.BasicBlock]bool{ib: true})[pred] && !reachFrom(okSucc, map[*ssa.BasicBlock]bool{ib: true})[pred]
+		switch {
+		case fromOK && !t.Has("^field:Complaint.Respondent"):
+			r.Bad(k, d, w.posOr(calls[0].Pos(), fn), "on the complaint-success edge the blamed member is "+clip(t.String(), 100))
+			return
+		case fromFail && !t.Has("^field:Complaint.Complainant"):
+			r.Bad(k, d, w.posOr(calls[0].Pos(), fn), "on the complaint-failed edge the blamed member is "+clip(t.String(), 100))
+			return
+		case !fromOK && !fromFail:
+			r.Bad(k, d, w.posOr(calls[0].Pos(), fn), "cannot attribute an incoming value to one edge of the VerifyComplaint branch")
+			return
+		}
+	}
+	r.OK(k, d, w.Pos(calls[0].Pos()), "complainant on failure, respondent on success")
+}
